@@ -63,6 +63,7 @@ func LinearAttempt(ctx context.Context, rate time.Duration, count int) <-chan ti
 			case t = <-ticker.C:
 				verifPoint("attempt.tick", c, i)
 			}
+			verifPoint("attempt.recheck.begin", c, i)
 			if ctx.Err() != nil {
 				// guarantee at most one tick after context cancel
 				verifPoint("attempt.recheck.cancelled", c, i)
